@@ -171,7 +171,8 @@ def scan_op(rng, nkeys):
 INVARIANTS = ["InvReadLatest", "InvNoLoss", "InvNoDup", "InvScan"]
 
 
-def validate(wd, name, trace, devs, timeout=1200):
+def validate(wd, name, trace, devs, timeout=None):
+    timeout = timeout or (1200 if vlib.tier() == "quick" else 4800)
     cfg = cfg_text(spec="TraceSpec", constants={"Dev": set(devs)}, invariants=INVARIANTS,
                    postcondition="TraceAccepted")
     r = run_tlc("Trace_Tree", cfg, wd, name, workers=1, timeout=timeout, dfs=True, heap="3g",
